@@ -185,6 +185,14 @@ def apply_fault(base_bytes, fault, tmp):
     kind = fault["kind"]
     path = tmp / "f.numbers"
     if kind == "missing":
+        how = fault.get("how", "plain")
+        if how == "long_name":        # no such file, and no such file can exist
+            return tmp / ("a" * 300 + ".numbers")
+        if how == "below_file":
+            (tmp / "plain.numbers").write_bytes(base_bytes)
+            return tmp / "plain.numbers" / "inner.numbers"
+        if how == "missing_dir":
+            return tmp / "no" / "such" / "dir" / "f.numbers"
         return tmp / "does-not-exist.numbers"
     if kind == "suffix":
         p = tmp / ("f" + fault["suffix"])
@@ -415,7 +423,7 @@ def fault_strategy(base_bytes):
         st.fixed_dictionaries({"kind": st.sampled_from(["drop_loose", "garble_loose"]), "member": st.sampled_from(plists)}),
     )
     return st.one_of(
-        st.just({"kind": "missing"}),
+        st.fixed_dictionaries({"kind": st.just("missing"), "how": st.sampled_from(["plain", "long_name", "below_file", "missing_dir"])}),
         st.fixed_dictionaries({"kind": st.just("suffix"), "suffix": st.sampled_from([".numberz", ".zip", "", ".NUMBERS", ".pages"])}),
         st.fixed_dictionaries({"kind": st.just("truncate"), "at": trunc}),
         st.fixed_dictionaries({"kind": st.just("truncate"), "at": trunc}),
